@@ -303,9 +303,17 @@ func (a *Auth) checkSession(sess string) (res checkSessionResult) {
 
 // removeSession removes the session from the active sessions and the disk.
 func (a *Auth) removeSession(sess string) {
-	key, _ := hex.DecodeString(sess)
+	key, err := hex.DecodeString(sess)
+	if err != nil {
+		// Not a session token.  Don't use the partially decoded bytes, since
+		// they may be the key of another, valid session.
+		log.Debug("auth: removing session: decoding token: %s", err)
+
+		return
+	}
+
 	a.lock.Lock()
-	delete(a.sessions, sess)
+	delete(a.sessions, hex.EncodeToString(key))
 	a.lock.Unlock()
 	a.removeSessionFromFile(key)
 }
